@@ -69,7 +69,8 @@ def case_argv(case, d):
         argv = cfg.argv(d, None, extra)
     if case.get("fasta_out"):
         # FASTQ input, output files named .fasta (optionally compressed): the name decides the format
-        suffix = ".fasta" + case["fasta_out"]
+        # ("=<suffix>": the whole suffix as given, e.g. an upper-case extension, which names the format just the same)
+        suffix = case["fasta_out"][1:] if case["fasta_out"].startswith("=") else ".fasta" + case["fasta_out"]
         argv = [a[:-6] + suffix if a.endswith(".fastq") and not os.path.basename(a).startswith("in.") else a for a in argv]
     return argv
 
@@ -183,7 +184,7 @@ def check(ctx):
             if rng.random() < (0.5 if bb.fasta else 0.15) and not bb.strip_suffix and bb.rename is None:
                 tag_names(case)
             b = case["cfg"].base if paired else case["cfg"]
-            case["fasta_out"] = rng.choice(["", "", ".gz"]) if (not b.fasta and rng.random() < 0.2) else None
+            case["fasta_out"] = rng.choice(["", "", ".gz", "=.FASTA", "=.fa", "=.FA", "=.Fasta.gz"]) if (not b.fasta and rng.random() < 0.25) else None
             ok = check_case(ctx, case, d, variants_for(rng, ctx.quick), dist)
             dist["paired" if paired else "single"] = dist.get("paired" if paired else "single", 0) + 1
             if ok and k < 40:
